@@ -100,6 +100,35 @@ func runRestart(c *fw.Ctx, ops []GOp, checkAll bool) (string, string, uint64) {
 	w.restart = true
 	for i := range ops {
 		if c09Clash(w.model, &ops[i]) {
+			// A request that merely NAMES such an object (it cannot exist) is still sent when it creates nothing: how it is
+			// answered is not judged (404 from the memory store, an I/O error from the file store), but it must not succeed
+			// and it must not touch the objects that do exist (e.g. those below the "directory" it names).
+			var rq *gcs.HTTPReq
+			switch ops[i].Kind {
+			case "Delete":
+				x := gcs.ReqDelete(ops[i].Bucket, ops[i].Name, nil)
+				rq = &x
+			case "Get":
+				x := gcs.ReqGetMedia("json", ops[i].Bucket, ops[i].Name)
+				rq = &x
+			case "Patch":
+				x := gcs.ReqPatch(ops[i].Bucket, ops[i].Name, ops[i].PatchBody, nil)
+				rq = &x
+			}
+			if rq == nil {
+				return "", c09Skip, 0
+			}
+			r := w.drv.Do(*rq)
+			if r.Panic != "" {
+				return fmt.Sprintf("%s on a name that is a directory of existing objects: panic: %s", ops[i].String(), r.Panic), "clash-panic", 0
+			}
+			if r.Status < 400 {
+				return fmt.Sprintf("%s: the object does not exist (its name is a directory of existing objects) but the request is answered %d", ops[i].String(), r.Status), "clash-status", 0
+			}
+			w.Reopen()
+			if m := w.CompareState(); m != "" {
+				return "state after " + ops[i].String() + " (which names no existing object): " + m, "clash-state", 0
+			}
 			return "", c09Skip, 0
 		}
 		if m, cl := w.Step(&ops[i], checkAll || i == len(ops)-1); m != "" {
